@@ -1,6 +1,7 @@
 //! Property registry.
 use crate::engine::PropertyInfo;
 
+pub mod c01;
 pub mod c03;
 pub mod c04;
 pub mod c10;
@@ -8,5 +9,5 @@ pub mod c17;
 pub mod c20;
 
 pub fn registry() -> Vec<PropertyInfo> {
-    vec![c03::info(), c04::info(), c10::info(), c17::info(), c20::info()]
+    vec![c01::info_c01(), c01::info_c02(), c03::info(), c04::info(), c01::info_c08(), c10::info(), c17::info(), c20::info()]
 }
